@@ -95,7 +95,7 @@ def gen_inputs(arg):
     elif family == "strings":
         # literals with every kind of ending / escape / slot shape
         parts = ['"', '$"', "\\", "\\x", "\\x4", "\\x41", "\\xg", "\\q", "$", "${", "}", "{", "a", "é", "\n", '\\"', "\\$", "${x}", "${{}}", " ", "#",
-                 " 9223372036854775808 ", " 9223372036854775807 ", " 99999999999999999999999_ ", " 1_2__ ", " 0x1 "]
+                 "\\x4\u0141", "\\x\u01311", "\u0663", " 9223372036854775808 ", " 9223372036854775807 ", " 99999999999999999999999_ ", " 1_2__ ", " 0x1 "]
         for _ in range(count):
             k = rng.randrange(1, 7)
             texts.append("x := " + "".join(rng.choice(parts) for _ in range(k)) + rng.choice(["", "\n", '"\n', '"']))
